@@ -24,14 +24,15 @@ RULE = ("grammar-aware fault enumeration (full product of per-field alphabets, n
         "type nibble 0..15 x pad nibble x magic x size field x body shape (valid, correctly tagged garbage, correctly signed "
         "inner packet with bad padding, misaligned, filler); plus raw filler of lengths 1..40. Each crafted reply is sent "
         "for every request of the phase and driven through LAN.send, LAN.authenticate, Device._send_command and "
-        "AirConditioner.refresh; the same alphabets are also injected UNSOLICITED between two exchanges (idle phase) and after the "
-        "handshake. Outcome must be frames / ProtocolError family / TimeoutError; device-level calls never raise. "
+        "AirConditioner.refresh; the same alphabets are also injected UNSOLICITED between two exchanges (idle phase), after the "
+        "handshake, and as the answer to the IMPLICIT re-handshake of an operation that follows a lost connection or an expired authentication. Outcome must be frames / ProtocolError family / TimeoutError; device-level calls never raise. "
         "A case is (protocol, phase, field values, driver); all non-trivial")
 ASSUMPTIONS = ["the crafted reply is repeated for every retransmission", "frames carried by 'valid' bodies are well-formed state reports"]
 IP, PORT = "10.0.0.3", 6444
 CMD = bytes.fromhex("aa21ac8d000000000003418100ff03ff000200000000000000000000000003016971")
 DRIVERS = ["send", "command", "refresh", "send-then-send"]
 IDLE_DRIVERS = ["send-idle", "refresh-idle"]
+REAUTH_DRIVERS = ["send-reauth", "refresh-reauth", "refresh-reauth-expired"]
 
 V2_MARKERS = [b"\x5a\x5a", b"\x5a\x5b", b"\x00\x00", b"\x83\x70", b"\xaa\x20"]
 V2_LENGTHS = [0, 1, 5, 6, 39, 40, 55, 56, 57, "n-1", "n", "n+1", 0xFFFF]
@@ -57,6 +58,7 @@ def shards(tier):
     out += [("v3", ph, t) for ph in range(2) for t in range(16)]
     out += [("raw", v, 0) for v in (2, 3)]
     out += [("v3idle", 0, t) for t in range(16)]
+    out += [("v3re", 0, t) for t in range(16)]
     out += [("v2idle", m, 0) for m in range(len(V2_MARKERS))]
     return out
 
@@ -173,6 +175,31 @@ def make_driver(name: str, w: World, version: int, token, key, idle=None):
             await ac0.apply()
             return ac0.online
         return drive
+    if name in REAUTH_DRIVERS:
+        # an authenticated session loses its connection (or its 12 h authentication); the IMPLICIT re-handshake of the next
+        # operation is answered with the crafted bytes
+        lan3 = LAN(IP, PORT, 7)
+        ac3 = AC(ip=IP, port=PORT, device_id=7)
+
+        async def drive():
+            who = lan3 if name == "send-reauth" else ac3
+            await who.authenticate(token, key)
+            if name == "send-reauth":
+                await lan3.send(CMD)
+            else:
+                await ac3.refresh()
+            if name.endswith("expired"):
+                w.loop.jump(13 * 3600)
+            else:
+                w.net.conns[-1].peer_close(0.001)
+                await asyncio.sleep(0.01)
+            idle["armed"] = True
+            if name == "send-reauth":
+                return await lan3.send(CMD)
+            await ac3.refresh()
+            await ac3.apply()
+            return ac3.online
+        return drive
     if name == "send-then-send":
         lan2 = LAN(IP, PORT, 7)
 
@@ -236,7 +263,14 @@ def execute(version: int, phase: str, crafter, driver: str):
     idle["inject_after_auth"] = inject if version == 3 else (lambda: None)
 
     def script(req):
-        if phase != "idle" and (version == 2 or req.kind == phase) and not idle.get("honest"):
+        if phase == "rehandshake":
+            if req.kind == "handshake" and idle.get("armed"):
+                pkt = crafter(req)
+                sent.append(pkt)
+                if pkt:
+                    req.send(pkt)
+                return
+        elif phase != "idle" and (version == 2 or req.kind == phase) and not idle.get("honest"):
             pkt = crafter(req)
             sent.append(pkt)
             if pkt:
@@ -262,7 +296,7 @@ def judge(st: Stats, case, driver, out, loop_errs, desc: str):
     prob = None
     if oc not in ALLOWED:
         prob = f"{driver} raised {oc}"
-    elif driver in ("command", "refresh", "refresh-idle") and oc != "ok":
+    elif driver in ("command", "refresh", "refresh-idle", "refresh-reauth", "refresh-reauth-expired") and oc != "ok":
         # device-level calls swallow transport failures - except a failing *authenticate* the user called explicitly
         if not (oc == "AuthenticationError" and case.get("phase") == "handshake"):
             prob = f"{driver} raised {oc}"
@@ -320,6 +354,17 @@ def run_shard(shard, tier) -> Stats:
                 res = execute(3, "idle", crafter, driver)
                 oc = judge(st, case, driver, res[0], res[2], f"v3 unsolicited between exchanges type={ptype} body={body}")
                 st.ev(("v3idle", b, pad, magic, size, body, driver), f"{driver}:{oc}", True)
+    elif kind == "v3re":
+        ptype = b
+        for pad, magic, size, body in product((0, 15), (0x20, 0x00), ("actual", 0, 33, "actual+1"), V3_BODIES):
+            def crafter(req, pad=pad, magic=magic, size=size, body=body):
+                hs = req.responses[0][8:] if (req.responses and len(req.responses[0]) == 72) else filler("c09/hs", 64)
+                return craft_v3("handshake", ptype, pad, magic, size, body, None, hs)
+            for driver in REAUTH_DRIVERS:
+                case = {"proto": 3, "phase": "rehandshake", "type": ptype, "pad": pad, "magic": magic, "size": size, "body": body, "driver": driver}
+                res = execute(3, "rehandshake", crafter, driver)
+                oc = judge(st, case, driver, res[0], res[2], f"v3 implicit re-handshake type={ptype} body={body}")
+                st.ev(("v3re", b, pad, magic, size, body, driver), f"{driver}:{oc}", True)
     elif kind == "v2idle":
         marker = V2_MARKERS[a]
         for lf, cipher, sig, trunc in product(V2_LENGTHS, V2_CIPHER, V2_SIGS, (None, 6, "n-1")):
@@ -357,7 +402,7 @@ def replay(case):
 
         def crafter(req):
             sk = req.conn.state.get("session_key") if phase in ("data", "idle") else None
-            hs = req.responses[0][8:] if (phase == "handshake" and req.responses and len(req.responses[0]) == 72) else filler("c09/hs", 64)
-            return craft_v3("data" if phase == "idle" else phase, case["type"], case["pad"], case["magic"], case["size"], case["body"], sk, hs)
+            hs = req.responses[0][8:] if (phase in ("handshake", "rehandshake") and req.responses and len(req.responses[0]) == 72) else filler("c09/hs", 64)
+            return craft_v3("data" if phase == "idle" else "handshake" if phase == "rehandshake" else phase, case["type"], case["pad"], case["magic"], case["size"], case["body"], sk, hs)
         res = execute(3, phase, crafter, case["driver"])
     return {"outcome": exc_class(res[0]), "detail": str(res[0][1])[:300], "loop_errors": res[2]}
